@@ -11,13 +11,13 @@ use serde::de::DeserializeOwned;
 use serde::Serialize;
 use serde_json::json;
 
-use crate::engine::{CheckFn, Ctx, Obs, Sub, Tier, Verdict, VERIF_ROOT};
+use crate::engine::{CheckFn, Ctx, Obs, Sub, Tier, Verdict, verif_root};
 
-const FUZZ_DIR: &str = "/verif/harness";
 
 fn find_binary(target: &str) -> Option<PathBuf> {
-    for base in ["/verif/target", "/verif/harness/fuzz/target"] {
-        let p = Path::new(base).join("x86_64-unknown-linux-gnu/release").join(target);
+    let target_dir = std::env::var("CARGO_TARGET_DIR").map(PathBuf::from).unwrap_or_else(|_| verif_root().join("target"));
+    for base in [target_dir, verif_root().join("harness/fuzz/target")] {
+        let p = base.join("x86_64-unknown-linux-gnu/release").join(target);
         if p.is_file() {
             return Some(p);
         }
@@ -28,7 +28,7 @@ fn find_binary(target: &str) -> Option<PathBuf> {
 pub fn build_target(target: &str) -> Result<PathBuf, String> {
     let out = Command::new("cargo")
         .args(["+nightly", "fuzz", "build", target])
-        .current_dir(FUZZ_DIR)
+        .current_dir(verif_root().join("harness"))
         .env("CARGO_NET_OFFLINE", "true")
         // cargo-fuzz sets RUSTFLAGS itself (which hides build.rustflags of .cargo/config.toml)
         // and appends the caller's RUSTFLAGS: the hook cfg has to come from here
@@ -96,10 +96,10 @@ fn run_campaign<C: Serialize>(ctx: &mut Ctx, sub: &'static str, camp: &Campaign,
             return;
         }
     };
-    let work = Path::new(VERIF_ROOT).join("work").join(format!("{}-{}", camp.target, std::process::id()));
+    let work = verif_root().join("work").join(format!("{}-{}", camp.target, std::process::id()));
     let _ = std::fs::remove_dir_all(&work);
-    let seed_corpus = Path::new(VERIF_ROOT).join("corpus").join(camp.target);
-    let dict = Path::new(VERIF_ROOT).join("corpus").join(format!("{}.dict", camp.target));
+    let seed_corpus = verif_root().join("corpus").join(camp.target);
+    let dict = verif_root().join("corpus").join(format!("{}.dict", camp.target));
     let mut children = vec![];
     for w in 0..camp.workers {
         let wdir = work.join(format!("w{w}"));
@@ -177,7 +177,7 @@ fn run_campaign<C: Serialize>(ctx: &mut Ctx, sub: &'static str, camp: &Campaign,
         for a in arts {
             let name = a.file_name().unwrap().to_string_lossy().to_string();
             let Ok(bytes) = std::fs::read(&a) else { continue };
-            let keep = Path::new(VERIF_ROOT).join("replays").join(&ctx.id);
+            let keep = verif_root().join("replays").join(&ctx.id);
             let _ = std::fs::create_dir_all(&keep);
             let kept = keep.join(format!("{}-{name}", camp.target));
             let _ = std::fs::copy(&a, &kept);
